@@ -203,6 +203,9 @@ def fi_run_case(spec):
     cl = pd.DataFrame({"c": [0.125, 0.0, 0.125, 0.25, 0.0, 0.125, 0.0, 0.0]}, index=idx)
     cs = pd.DataFrame({"c": [0.25, 0.25, 0.0, 0.5, 0.25, 0.0, 0.125, 0.0]}, index=idx)
     notional = pd.Series(spec["notional"][:n], index=idx, dtype=float)
+    if spec.get("notional_gaps"):
+        # nothing scheduled on some dates: the stack stops at SetNotional there
+        notional = notional.drop([idx[k] for k in spec["notional_gaps"]])
     w = spec["weights"]
     stack = [A.RunDaily() if spec.get("gate", "daily") == "daily" else A.RunWeekly(), A.SetNotional("notional"), A.WeighSpecified(**w), A.Rebalance()]
     kids = [bt.FixedIncomeSecurity("f"), bt.CouponPayingSecurity("c"), bt.HedgeSecurity("h"), bt.Security("e")]
@@ -235,6 +238,8 @@ def fi_run_case(spec):
     for i in range(1, len(vals) - 1):  # RunDaily does not fire on the last date by default
         lab = r.values.index[i]
         if spec.get("gate", "daily") == "daily" and not spec.get("integer", False) and all(k in ("f", "c") for k in w):
+            if lab not in notional.index:
+                continue
             exp = float(notional.loc[lab]) * sum(abs(x) for x in w.values())
             if not ref.near(notl[i], exp, S):
                 viols.append({"rule": "notional_follows_setnotional", "expected": {"date": str(lab), "notional": exp}, "observed": notl[i]})
@@ -268,6 +273,11 @@ def fi_specs(tier):
                         if tier == "quick" and (integer and fee is not None):
                             continue
                         out.append({"weights": w, "notional": nt, "gate": gate, "fee": fee, "spread": spread, "integer": integer, "norm": 64.0})
+    # a book that is wound down to a scheduled notional of exactly zero and re-opened; dates with nothing scheduled
+    for w in ws[:3]:
+        for nt, gaps in (([64.0, 64.0, 0.0, 0.0, 32.0, 32.0, 0.0, 64.0], None), ([64.0, 128.0, 128.0, 0.0, 32.0, 32.0, 64.0, 64.0], [2, 5]), ([64.0, 64.0, 128.0, 128.0, 32.0, 32.0, 64.0, 64.0], [1, 4])):
+            for fee, spread in ((None, None), ("prop", 0.25)):
+                out.append({"weights": w, "notional": nt, "notional_gaps": gaps, "gate": "daily", "fee": fee, "spread": spread, "integer": False, "norm": 64.0})
     if tier != "quick":
         out += [dict(s, alpha="decimal", norm=37.5) for s in out[::2]]
     return out
